@@ -45,6 +45,7 @@ func genC11Burst(d *Draw) Case {
 	c.Prog = &Program{Defs: defs, Vars: map[string]any{}, Tags: []string{"burst"}, Desc: fmt.Sprintf("one catch (sA), slow subscriber %dms/trace, burst %v from separate goroutines", c.SlowObsMs, evd)}
 	c.Picks = drawPicks(d, 16)
 	c.Meta = map[string]int{"racy": 0, "burst": 1, "nevents": len(c.Events)}
+	nestEvents(d, c)
 	return c
 }
 
@@ -181,7 +182,25 @@ func genC11(d *Draw) Case {
 	c.Prog = &Program{Defs: defs, Vars: vars, Tags: tags, Desc: fmt.Sprintf("catches=%v shape=%d pre-task=%v events=%v racy=%v", used, shape, pre, evd, racy)}
 	c.Picks = drawPicks(d, 40)
 	c.Meta = map[string]int{"racy": b2i(racy), "nevents": len(c.Events), "shape": shape, "final": b2i(final), "parallel": b2i(shape == 1 && nc > 1), "startDef": b2i(startDef)}
+	nestEvents(d, c)
 	return c
+}
+
+// nestEvents (one run in four): the whole body of the process is moved into an embedded sub-process, one or two
+// levels deep, so that its catch / throw / boundary events and event-based gateways register with the sub-process
+// and every delivered event passes the sub-process' own forwarding stage(s).
+func nestEvents(d *Draw, c *ProcCase) {
+	if d.N(4) != 3 {
+		return
+	}
+	lv := 1 + d.N(2)
+	if nestBody(c.Prog.Defs, c.Prog.Defs.Procs[0], lv) {
+		c.Prog.Tags = append(c.Prog.Tags, "events-in-subprocess")
+		c.Prog.Desc += fmt.Sprintf(" [body nested in %d sub-process level(s)]", lv)
+		if c.Meta != nil {
+			c.Meta["nested"] = lv
+		}
+	}
 }
 
 func b2i(b bool) int {
@@ -246,7 +265,7 @@ func checkC11(cc Case, r *simrt.Result) *Outcome {
 				leaves[ev.A]++
 			}
 		}
-		for _, n := range g.Nodes {
+		for _, n := range g.allNodes() {
 			if n.Kind != "catch" {
 				continue
 			}
@@ -489,6 +508,7 @@ func genC14(d *Draw) Case {
 	c.Prog = &Program{Defs: defs, Vars: map[string]any{"never": false}, Desc: fmt.Sprintf("catch defs=%v parallelMultiple=%v activations<=%d events=%v", dd, cm.Parallel, acts, evd)}
 	c.Picks = drawPicks(d, 40)
 	c.Meta = map[string]int{"parallel": b2i(cm.Parallel), "ndefs": nd}
+	nestEvents(d, c)
 	return c
 }
 
@@ -507,7 +527,7 @@ func checkC14(cc Case, r *simrt.Result) *Outcome {
 			// Nothing follows the catch event here, and the reference model lets a relaxed (parallel-multiple)
 			// catch go only when the observer has logged its LeaveTrace: the completion, which another
 			// goroutine logs, can overtake that entry. The bounds below still hold the firing to the history.
-			if n := c.Prog.Defs.Procs[0].Node("CM"); n != nil && n.Relaxed {
+			if n := findN(c.Prog.Defs.Procs[0], "CM"); n != nil && n.Relaxed {
 				continue
 			}
 		}
@@ -515,7 +535,7 @@ func checkC14(cc Case, r *simrt.Result) *Outcome {
 	}
 	// counting bounds, from the engine's own traces: EventObservedTrace (the node was listening) and
 	// the node's LeaveTrace (it fired)
-	cm := c.Prog.Defs.Procs[0].Node("CM")
+	cm := findN(c.Prog.Defs.Procs[0], "CM")
 	matches := make([]int, len(cm.Events))
 	fires := 0
 	var pendingEv [][2]string
@@ -719,6 +739,7 @@ func genC06(d *Draw) Case {
 		c.Prog.Tags = append(c.Prog.Tags, "two-tokens-at-the-gateway")
 		c.Prog.Desc += " two tokens (parallel fork in front of the gateway)"
 	}
+	nestEvents(d, c)
 	return c
 }
 
@@ -773,7 +794,7 @@ func checkC06(cc Case, r *simrt.Result) *Outcome {
 	g := c.Prog.Defs.Procs[0]
 	anyCompetitor := false
 	for i := 1; i <= na; i++ {
-		dff := g.Node(fmt.Sprintf("C%d", i)).Events[0]
+		dff := findN(g, fmt.Sprintf("C%d", i)).Events[0]
 		if deliveredArmed[dff.Kind+":"+dff.Ref] {
 			anyCompetitor = true
 		}
@@ -785,7 +806,7 @@ func checkC06(cc Case, r *simrt.Result) *Outcome {
 			idx := 0
 			fmt.Sscanf(k, "T%d", &idx)
 			if idx >= 1 && idx <= na {
-				dff := g.Node(fmt.Sprintf("C%d", idx)).Events[0]
+				dff := findN(g, fmt.Sprintf("C%d", idx)).Events[0]
 				if !delivered[dff.Kind+":"+dff.Ref] {
 					vl.add("C06/branch-without-event", "branch task %s was requested although its event %s was never delivered", k, dff.Ref)
 				}
@@ -817,7 +838,7 @@ func checkC06(cc Case, r *simrt.Result) *Outcome {
 	probe(o, "several-competitors-delivered", func() bool {
 		n := 0
 		for i := 1; i <= na; i++ {
-			dff := g.Node(fmt.Sprintf("C%d", i)).Events[0]
+			dff := findN(g, fmt.Sprintf("C%d", i)).Events[0]
 			if delivered[dff.Kind+":"+dff.Ref] {
 				n++
 			}
@@ -965,6 +986,7 @@ func genC10(d *Draw) Case {
 	c.Prog = &Program{Defs: defs, Vars: map[string]any{}, Tags: tl, Desc: fmt.Sprintf("host H (sub-process=%v) with %d boundary event(s), pre-task=%v two-tokens=%v loop=%v, events %v burst=%v", subHost, nb, pre, two, loop, evd, burst)}
 	c.Picks = drawPicks(d, 32)
 	c.Meta = map[string]int{"two": b2i(two), "nb": nb, "subhost": b2i(subHost), "loop": b2i(loop), "burst": b2i(burst)}
+	nestEvents(d, c)
 	return c
 }
 
@@ -1006,7 +1028,7 @@ func checkC10(cc Case, r *simrt.Result) *Outcome {
 	}
 	g := c.Prog.Defs.Procs[0]
 	for id, n := range tg.M.Fired {
-		if b := g.Node(id); b != nil && b.Kind == "boundary" && b.Interrupting && n > 0 {
+		if b := findN(g, id); b != nil && b.Kind == "boundary" && b.Interrupting && n > 0 {
 			intrFired = true
 		}
 	}
